@@ -1,4 +1,6 @@
 import EzdxfVerif.Model.Heap
+import EzdxfVerif.Model.HeapRecipe
+import EzdxfVerif.Lemmas.HeapRecipe
 import EzdxfVerif.Gen.HeapGraphs
 
 /-!
@@ -338,6 +340,665 @@ theorem sep_preserved (frozen : List Nat) (h : Heap) (a b : Nat) (ws : List Writ
 private theorem sep_symm (frozen : List Nat) (h : Heap) (a b : Nat) (sep : Sep frozen h a b) : Sep frozen h b a :=
   fun x rb ra => sep x ra rb
 
+/-! ### two roots, interleaved writes (two documents in one process) -/
+
+/-- **interleaved_frame**: two separated roots (two documents) under ANY interleaving of writes through the one and
+    through the other: every single write leaves the observation of the OTHER root unchanged (at every depth; stated
+    for every prefix `pre` of the interleaving and the write that follows it), the roots stay separated and the heap
+    well formed.  (That each root ends up observing what its own writes alone produce: `interleaved_solo`.) -/
+theorem interleaved_frame (fro : List Nat) (h : Heap) (a b : Nat) (ws : List (Bool × Write))
+    (wf : WF h) (ha : a < h.length) (hb : b < h.length) (sep : Sep fro h a b) :
+    (∀ (pre : List (Bool × Write)) (t : Bool) (w : Write) (post : List (Bool × Write)), ws = pre ++ (t, w) :: post →
+      ∀ n, observe (apply1 fro (if t then b else a) (applyTagged fro a b h pre) w) n (.own (if t then a else b))
+         = observe (applyTagged fro a b h pre) n (.own (if t then a else b))) ∧
+    WF (applyTagged fro a b h ws) ∧ Sep fro (applyTagged fro a b h ws) a b := by
+  have inv : Inv fro h a b := ⟨wf, ha, hb, sep⟩
+  clear wf ha hb sep
+  induction ws generalizing h with
+  | nil =>
+    refine ⟨?_, inv.wf, inv.sep⟩
+    intro pre t w post e
+    cases pre <;> simp at e
+  | cons tw ws ih =>
+    obtain ⟨t0, w0⟩ := tw
+    -- one step, through b or through a (with the roles exchanged)
+    have stepb : ∀ (h : Heap), Inv fro h a b → ∀ w, Inv fro (apply1 fro b h w) a b ∧
+        ∀ n, observe (apply1 fro b h w) n (.own a) = observe h n (.own a) := by
+      intro h inv w
+      have ⟨i', same⟩ := step_frame inv (apply1_step fro b h w)
+      exact ⟨i', fun n => observe_local n a same⟩
+    have stepa : ∀ (h : Heap), Inv fro h a b → ∀ w, Inv fro (apply1 fro a h w) a b ∧
+        ∀ n, observe (apply1 fro a h w) n (.own b) = observe h n (.own b) := by
+      intro h inv w
+      have inv' : Inv fro h b a := ⟨inv.wf, inv.hb, inv.ha, sep_symm _ _ _ _ inv.sep⟩
+      have ⟨i', same⟩ := step_frame inv' (apply1_step fro a h w)
+      exact ⟨⟨i'.wf, i'.hb, i'.ha, sep_symm _ _ _ _ i'.sep⟩, fun n => observe_local n b same⟩
+    have hstep : Inv fro (apply1 fro (if t0 then b else a) h w0) a b ∧
+        ∀ n, observe (apply1 fro (if t0 then b else a) h w0) n (.own (if t0 then a else b))
+           = observe h n (.own (if t0 then a else b)) := by
+      cases t0
+      · simpa using stepa h inv w0
+      · simpa using stepb h inv w0
+    have ⟨h1, h2, h3⟩ := ih _ hstep.1
+    refine ⟨?_, by simpa [applyTagged] using h2, by simpa [applyTagged] using h3⟩
+    intro pre t w post e
+    cases pre with
+    | nil =>
+      simp only [List.nil_append, List.cons.injEq, Prod.mk.injEq] at e
+      obtain ⟨⟨rfl, rfl⟩, _⟩ := e
+      simpa [applyTagged] using hstep.2
+    | cons p pre' =>
+      simp only [List.cons_append, List.cons.injEq] at e
+      obtain ⟨rfl, e'⟩ := e
+      simpa [applyTagged] using h1 pre' t w post e'
+
+
+/-! ### interleaved = solo, up to the addresses of fresh objects -/
+
+private theorem RefRel.mono {φ φ' : List (Nat × Nat)} (hs : ∀ p ∈ φ, p ∈ φ') {r r' : Ref} (h : RefRel φ r r') :
+    RefRel φ' r r' := by
+  cases r <;> cases r' <;> simp only [RefRel] at h ⊢
+  all_goals first | exact h | exact hs _ h
+
+private theorem RelL.mono {φ φ' : List (Nat × Nat)} (hs : ∀ p ∈ φ, p ∈ φ') :
+    ∀ {l l' : List Ref}, RelL φ l l' → RelL φ' l l' := by
+  intro l
+  induction l with
+  | nil => intro l' h; cases l' <;> simp_all [RelL]
+  | cons r rs ih =>
+    intro l' h
+    cases l' with
+    | nil => simp [RelL] at h
+    | cons r' rs' => exact ⟨RefRel.mono hs h.1, ih h.2⟩
+
+private theorem RelL.length {φ : List (Nat × Nat)} : ∀ {l l' : List Ref}, RelL φ l l' → l.length = l'.length := by
+  intro l
+  induction l with
+  | nil => intro l' h; cases l' <;> simp_all [RelL]
+  | cons r rs ih =>
+    intro l' h
+    cases l' with
+    | nil => simp [RelL] at h
+    | cons r' rs' => simp [ih h.2]
+
+private theorem RelL.get {φ : List (Nat × Nat)} : ∀ {l l' : List Ref}, RelL φ l l' → ∀ i : Nat, OptRel (RefRel φ) l[i]? l'[i]? := by
+  intro l
+  induction l with
+  | nil => intro l' h i; cases l' <;> simp_all [RelL, OptRel]
+  | cons r rs ih =>
+    intro l' h i
+    cases l' with
+    | nil => simp [RelL] at h
+    | cons r' rs' =>
+      cases i with
+      | zero => simpa [OptRel] using h.1
+      | succ i => simpa using ih h.2 i
+
+private theorem RelL.set {φ : List (Nat × Nat)} {r r' : Ref} (hr : RefRel φ r r') :
+    ∀ {l l' : List Ref}, RelL φ l l' → ∀ i, RelL φ (l.set i r) (l'.set i r') := by
+  intro l
+  induction l with
+  | nil => intro l' h i; cases l' <;> simp_all [RelL]
+  | cons x xs ih =>
+    intro l' h i
+    cases l' with
+    | nil => simp [RelL] at h
+    | cons x' xs' =>
+      cases i with
+      | zero => exact ⟨hr, h.2⟩
+      | succ i => exact ⟨h.1, ih h.2 i⟩
+
+private theorem RelL.append {φ : List (Nat × Nat)} {m m' : List Ref} (hm : RelL φ m m') :
+    ∀ {l l' : List Ref}, RelL φ l l' → RelL φ (l ++ m) (l' ++ m') := by
+  intro l
+  induction l with
+  | nil => intro l' h; cases l' <;> simp_all [RelL]
+  | cons x xs ih =>
+    intro l' h
+    cases l' with
+    | nil => simp [RelL] at h
+    | cons x' xs' => exact ⟨h.1, ih h.2⟩
+
+private theorem RelL.dropLast {φ : List (Nat × Nat)} :
+    ∀ {l l' : List Ref}, RelL φ l l' → RelL φ l.dropLast l'.dropLast := by
+  intro l
+  induction l with
+  | nil => intro l' h; cases l' <;> simp_all [RelL]
+  | cons x xs ih =>
+    intro l' h
+    cases l' with
+    | nil => simp [RelL] at h
+    | cons x' xs' =>
+      cases xs with
+      | nil =>
+        cases xs' with
+        | nil => simp [RelL]
+        | cons y ys => simp [RelL] at h
+      | cons z zs =>
+        cases xs' with
+        | nil => simp [RelL] at h
+        | cons y ys =>
+          simp only [List.dropLast_cons_cons]
+          exact ⟨h.1, ih h.2⟩
+
+private theorem RelL.eraseIdx {φ : List (Nat × Nat)} :
+    ∀ {l l' : List Ref}, RelL φ l l' → ∀ i, RelL φ (l.eraseIdx i) (l'.eraseIdx i) := by
+  intro l
+  induction l with
+  | nil => intro l' h i; cases l' <;> simp_all [RelL]
+  | cons x xs ih =>
+    intro l' h i
+    cases l' with
+    | nil => simp [RelL] at h
+    | cons x' xs' =>
+      cases i with
+      | zero => simpa using h.2
+      | succ i => exact ⟨h.1, ih h.2 i⟩
+
+private theorem RelL.map_eq {φ : List (Nat × Nat)} {γ : Type} {f g : Ref → γ} (hfg : ∀ r r', RefRel φ r r' → f r = g r') :
+    ∀ {l l' : List Ref}, RelL φ l l' → l.map f = l'.map g := by
+  intro l
+  induction l with
+  | nil => intro l' h; cases l' <;> simp_all [RelL]
+  | cons x xs ih =>
+    intro l' h
+    cases l' with
+    | nil => simp [RelL] at h
+    | cons x' xs' => simp [hfg _ _ h.1, ih h.2]
+
+private theorem RelL.vals {φ : List (Nat × Nat)} (vs : List Int) : RelL φ (vs.map Ref.val) (vs.map Ref.val) := by
+  induction vs with
+  | nil => simp [RelL]
+  | cons v vs ih => exact ⟨by simp [RefRel], ih⟩
+
+private theorem RelL.map_eq_mem {φ : List (Nat × Nat)} {γ : Type} {f g : Ref → γ} :
+    ∀ {l l' : List Ref}, RelL φ l l' → (∀ r ∈ l, ∀ r', RefRel φ r r' → f r = g r') → l.map f = l'.map g := by
+  intro l
+  induction l with
+  | nil => intro l' h _; cases l' <;> simp_all [RelL]
+  | cons x xs ih =>
+    intro l' h hfg
+    cases l' with
+    | nil => simp [RelL] at h
+    | cons x' xs' =>
+      simp only [List.map_cons]
+      rw [hfg x (by simp) x' h.1, ih h.2 (fun r hr r' => hfg r (by simp [hr]) r')]
+
+private theorem iso_observe {φ : List (Nat × Nat)} {h1 h2 : Heap} {a : Nat} (iso : IsoA φ h1 h2 a) :
+    ∀ (n x y : Nat), (x, y) ∈ φ → Reach h1 a x → observe h1 n (.own x) = observe h2 n (.own y) := by
+  intro n
+  induction n with
+  | zero => intro x y _ _; rfl
+  | succ n ih =>
+    intro x y hxy rx
+    obtain ⟨o1, o2, ho1, ho2, hk, hs⟩ := iso (x, y) hxy rx
+    simp only [observe, ho1, ho2]
+    rw [hk]
+    congr 1
+    apply RelL.map_eq_mem hs
+    intro r hr r' hrr
+    cases r with
+    | val v =>
+      cases r' with
+      | val v' => simp only [RefRel] at hrr; subst hrr; cases n <;> rfl
+      | nav _ => simp [RefRel] at hrr
+      | own _ => simp [RefRel] at hrr
+    | nav m =>
+      cases r' with
+      | nav m' => simp only [RefRel] at hrr; subst hrr; cases n <;> rfl
+      | val _ => simp [RefRel] at hrr
+      | own _ => simp [RefRel] at hrr
+    | own c =>
+      cases r' with
+      | own c' =>
+        simp only [RefRel] at hrr
+        exact ih c c' hrr (Reach.step rx ⟨o1, ho1, hr⟩)
+      | val _ => simp [RefRel] at hrr
+      | nav _ => simp [RefRel] at hrr
+
+private theorem iso_resolve {φ : List (Nat × Nat)} {h1 h2 : Heap} {a : Nat} (iso : IsoA φ h1 h2 a) :
+    ∀ (p : List Nat) (x y : Nat), (x, y) ∈ φ → Reach h1 a x →
+      OptRel (fun t1 t2 => (t1, t2) ∈ φ ∧ Reach h1 a t1) (resolve h1 x p) (resolve h2 y p) := by
+  intro p
+  induction p with
+  | nil => intro x y hxy rx; simpa [resolve, OptRel] using ⟨hxy, rx⟩
+  | cons i p ih =>
+    intro x y hxy rx
+    obtain ⟨o1, o2, ho1, ho2, _, hs⟩ := iso (x, y) hxy rx
+    simp only [resolve, ho1, ho2]
+    have hg := RelL.get hs i
+    cases e1 : o1.slots[i]? with
+    | none =>
+      rw [e1] at hg
+      cases e2 : o2.slots[i]? with
+      | none => simp [OptRel]
+      | some r2 => rw [e2] at hg; simp [OptRel] at hg
+    | some r1 =>
+      rw [e1] at hg
+      cases e2 : o2.slots[i]? with
+      | none => rw [e2] at hg; simp [OptRel] at hg
+      | some r2 =>
+        rw [e2] at hg
+        simp only [OptRel] at hg
+        cases r1 with
+        | own c =>
+          cases r2 with
+          | own c' =>
+            simp only [RefRel] at hg
+            exact ih c c' hg (Reach.step rx ⟨o1, ho1, List.mem_of_getElem? e1⟩)
+          | val _ => simp [RefRel] at hg
+          | nav _ => simp [RefRel] at hg
+        | val v =>
+          cases r2 with
+          | val _ => simp [OptRel]
+          | own _ => simp [RefRel] at hg
+          | nav _ => simp [RefRel] at hg
+        | nav m =>
+          cases r2 with
+          | nav _ => simp [OptRel]
+          | own _ => simp [RefRel] at hg
+          | val _ => simp [RefRel] at hg
+
+private theorem optrel_some {α β : Type} {R : α → β → Prop} {x : α} {y : β} (h : R x y) : OptRel R (some x) (some y) := by
+  simpa [OptRel] using h
+
+private theorem newSlots_rel {φ : List (Nat × Nat)} {h1 h2 : Heap} {a : Nat} (iso : IsoA φ h1 h2 a) (haa : (a, a) ∈ φ)
+    {ss1 ss2 : List Ref} (hs : RelL φ ss1 ss2) (w : Write) :
+    OptRel (fun r1 r2 => RelL (φ ++ [(h1.length, h2.length)]) r1.1 r2.1 ∧ r1.2 = r2.2 ∧ (r1.2 = none → RelL φ r1.1 r2.1))
+      (newSlots h1 a ss1 w) (newSlots h2 a ss2 w) := by
+  have hl := RelL.length hs
+  have hsub : ∀ p ∈ φ, p ∈ φ ++ [(h1.length, h2.length)] := fun p hp => by simp [hp]
+  have hfresh : RefRel (φ ++ [(h1.length, h2.length)]) (.own h1.length) (.own h2.length) := by simp [RefRel]
+  cases w with
+  | setVal p i v =>
+    by_cases hi : i < ss1.length
+    · have hi2 : i < ss2.length := hl ▸ hi
+      have hr : RelL φ (ss1.set i (.val v)) (ss2.set i (.val v)) := RelL.set (by simp [RefRel]) hs i
+      simp only [newSlots, hi, hi2, if_true]
+      exact optrel_some ⟨RelL.mono hsub hr, rfl, fun _ => hr⟩
+    · have hi2 : ¬ i < ss2.length := hl ▸ hi
+      simp [newSlots, hi, hi2, OptRel]
+  | setNav p i m =>
+    by_cases hi : i < ss1.length
+    · have hi2 : i < ss2.length := hl ▸ hi
+      have hr : RelL φ (ss1.set i (.nav m)) (ss2.set i (.nav m)) := RelL.set (by simp [RefRel]) hs i
+      simp only [newSlots, hi, hi2, if_true]
+      exact optrel_some ⟨RelL.mono hsub hr, rfl, fun _ => hr⟩
+    · have hi2 : ¬ i < ss2.length := hl ▸ hi
+      simp [newSlots, hi, hi2, OptRel]
+  | push p v =>
+    have hr : RelL φ (ss1 ++ [.val v]) (ss2 ++ [.val v]) := RelL.append (by simp [RelL, RefRel]) hs
+    simp only [newSlots]
+    exact optrel_some ⟨RelL.mono hsub hr, rfl, fun _ => hr⟩
+  | pop p =>
+    have hr : RelL φ ss1.dropLast ss2.dropLast := RelL.dropLast hs
+    simp only [newSlots]
+    exact optrel_some ⟨RelL.mono hsub hr, rfl, fun _ => hr⟩
+  | erase p i =>
+    have hr : RelL φ (ss1.eraseIdx i) (ss2.eraseIdx i) := RelL.eraseIdx hs i
+    simp only [newSlots]
+    exact optrel_some ⟨RelL.mono hsub hr, rfl, fun _ => hr⟩
+  | setNew p i k vs =>
+    by_cases hi : i < ss1.length
+    · have hi2 : i < ss2.length := hl ▸ hi
+      simp only [newSlots, hi, hi2, if_true]
+      exact optrel_some ⟨RelL.set hfresh (RelL.mono hsub hs) i, rfl, fun e => by simp at e⟩
+    · have hi2 : ¬ i < ss2.length := hl ▸ hi
+      simp [newSlots, hi, hi2, OptRel]
+  | pushNew p k vs =>
+    simp only [newSlots]
+    exact optrel_some ⟨RelL.append (by simpa [RelL] using hfresh) (RelL.mono hsub hs), rfl, fun e => by simp at e⟩
+  | link p i q =>
+    have hres := iso_resolve iso q a a haa Reach.refl
+    by_cases hi : i < ss1.length
+    · have hi2 : i < ss2.length := hl ▸ hi
+      simp only [newSlots, hi, hi2, if_true]
+      cases e1 : resolve h1 a q with
+      | none =>
+        rw [e1] at hres
+        cases e2 : resolve h2 a q with
+        | none => simp [OptRel]
+        | some c2 => rw [e2] at hres; simp [OptRel] at hres
+      | some c1 =>
+        rw [e1] at hres
+        cases e2 : resolve h2 a q with
+        | none => rw [e2] at hres; simp [OptRel] at hres
+        | some c2 =>
+          rw [e2] at hres
+          simp only [OptRel] at hres
+          have hr : RelL φ (ss1.set i (.own c1)) (ss2.set i (.own c2)) := RelL.set (by simpa [RefRel] using hres.1) hs i
+          exact optrel_some ⟨RelL.mono hsub hr, rfl, fun _ => hr⟩
+    · have hi2 : ¬ i < ss2.length := hl ▸ hi
+      simp [newSlots, hi, hi2, OptRel]
+  | pushLink p q =>
+    have hres := iso_resolve iso q a a haa Reach.refl
+    simp only [newSlots]
+    cases e1 : resolve h1 a q with
+    | none =>
+      rw [e1] at hres
+      cases e2 : resolve h2 a q with
+      | none => simp [OptRel]
+      | some c2 => rw [e2] at hres; simp [OptRel] at hres
+    | some c1 =>
+      rw [e1] at hres
+      cases e2 : resolve h2 a q with
+      | none => rw [e2] at hres; simp [OptRel] at hres
+      | some c2 =>
+        rw [e2] at hres
+        simp only [OptRel] at hres
+        have hr : RelL φ (ss1 ++ [.own c1]) (ss2 ++ [.own c2]) := RelL.append (by simpa [RelL, RefRel] using hres.1) hs
+        exact optrel_some ⟨RelL.mono hsub hr, rfl, fun _ => hr⟩
+
+private theorem relL_self_of_no_own {φ : List (Nat × Nat)} : ∀ (l : List Ref), (∀ c, Ref.own c ∉ l) → RelL φ l l := by
+  intro l
+  induction l with
+  | nil => intro _; simp [RelL]
+  | cons r rs ih =>
+    intro h
+    refine ⟨?_, ih (fun c hc => h c (by simp [hc]))⟩
+    cases r with
+    | val v => simp [RefRel]
+    | nav n => simp [RefRel]
+    | own c => exact absurd (by simp) (h c)
+
+/-- what a root reaches after one of its own writes: what it reached before, or the fresh object -/
+private theorem set_reach {h : Heap} {b t : Nat} {o : Obj} {ss : List Ref} {fr : Option Obj}
+    (wf : WF h) (hb : b < h.length) (ho : h[t]? = some o) (rt : Reach h b t)
+    (hrefs : ∀ c, Ref.own c ∈ ss → Ref.own c ∈ o.slots ∨ (c = h.length ∧ fr.isSome) ∨ Reach h b c)
+    (hfresh : ∀ o', fr = some o' → ∀ c, Ref.own c ∉ o'.slots) :
+    ∀ x, Reach (h.set t ⟨o.kind, ss⟩ ++ fr.toList) b x → Reach h b x ∨ (x = h.length ∧ fr.isSome) := by
+  have htlt : t < h.length := reach_lt wf hb rt
+  have hobj : ∀ y o', (h.set t ⟨o.kind, ss⟩ ++ fr.toList)[y]? = some o' →
+      (y < h.length ∧ y ≠ t ∧ h[y]? = some o') ∨ (y = t ∧ o' = ⟨o.kind, ss⟩) ∨ (y = h.length ∧ fr = some o') := by
+    intro y o' hy
+    by_cases hyl : y < h.length
+    · by_cases hyt : y = t
+      · subst hyt
+        rw [List.getElem?_append_left (by simpa using hyl)] at hy
+        rw [List.getElem?_set_self hyl] at hy
+        simp at hy
+        exact Or.inr (Or.inl ⟨rfl, hy.symm⟩)
+      · rw [getElem?_step hyl hyt] at hy
+        exact Or.inl ⟨hyl, hyt, hy⟩
+    · have hge : (h.set t ⟨o.kind, ss⟩).length ≤ y := by simp; omega
+      rw [List.getElem?_append_right hge] at hy
+      cases fr with
+      | none => simp at hy
+      | some f =>
+        simp at hy
+        have : y - h.length = 0 := by
+          rcases Nat.eq_zero_or_pos (y - h.length) with h0 | h0
+          · exact h0
+          · rw [List.getElem?_eq_none (by simp; omega)] at hy; simp at hy
+        rw [this] at hy
+        simp at hy
+        exact Or.inr (Or.inr ⟨by omega, by rw [hy]⟩)
+  intro x r
+  induction r with
+  | refl => exact Or.inl Reach.refl
+  | @step y x _ e ih =>
+    obtain ⟨o', ho', hm⟩ := e
+    rcases hobj y o' ho' with ⟨_, _, hy⟩ | ⟨hy, rfl⟩ | ⟨hy, hfr⟩
+    · rcases ih with ih | ih
+      · exact Or.inl (Reach.step ih ⟨o', hy, hm⟩)
+      · omega
+    · subst hy
+      rcases hrefs x hm with h1 | h1 | h1
+      · exact Or.inl (Reach.step rt ⟨o, ho, h1⟩)
+      · exact Or.inr h1
+      · exact Or.inl h1
+    · exact absurd hm (hfresh o' hfr x)
+
+/-- the invariant of the simulation between the interleaved heap `h1` and the solo heap `h2` -/
+private structure SimInv (fro : List Nat) (φ : List (Nat × Nat)) (h1 h2 : Heap) (a : Nat) : Prop where
+  iso : IsoA φ h1 h2 a
+  haa : (a, a) ∈ φ
+  inj : ∀ p ∈ φ, ∀ q ∈ φ, p.1 = q.1 ↔ p.2 = q.2
+  bnd : ∀ p ∈ φ, p.1 < h1.length ∧ p.2 < h2.length
+  fa : ∀ p ∈ φ, p.1 ∈ fro ↔ p.2 ∈ fro
+  fb : ∀ x ∈ fro, x < h1.length ∧ x < h2.length
+
+private theorem getElem?_step' {h : Heap} {t : Nat} {o' : Obj} {fr : Option Obj} {x : Nat}
+    (hx : x < h.length) (hne : x ≠ t) : (h.set t o' ++ fr.toList)[x]? = h[x]? := getElem?_step hx hne
+
+private theorem getElem?_self {h : Heap} {t : Nat} {o' : Obj} {fr : Option Obj}
+    (ht : t < h.length) : (h.set t o' ++ fr.toList)[t]? = some o' := by
+  rw [List.getElem?_append_left (by simpa using ht), List.getElem?_set_self ht]
+
+/-- one write through `a`, performed on both heaps -/
+private theorem sim_step_a {fro : List Nat} {φ : List (Nat × Nat)} {h1 h2 : Heap} {a : Nat}
+    (S : SimInv fro φ h1 h2 a) (wf1 : WF h1) (ha1 : a < h1.length) (w : Write) :
+    ∃ φ', (∀ p ∈ φ, p ∈ φ') ∧ SimInv fro φ' (apply1 fro a h1 w) (apply1 fro a h2 w) a := by
+  have hres := iso_resolve S.iso w.path a a S.haa Reach.refl
+  unfold apply1
+  cases e1 : resolve h1 a w.path with
+  | none =>
+    rw [e1] at hres
+    cases e2 : resolve h2 a w.path with
+    | none => exact ⟨φ, fun _ hp => hp, S⟩
+    | some t2 => rw [e2] at hres; simp [OptRel] at hres
+  | some t1 =>
+    rw [e1] at hres
+    cases e2 : resolve h2 a w.path with
+    | none => rw [e2] at hres; simp [OptRel] at hres
+    | some t2 =>
+      rw [e2] at hres
+      simp only [OptRel] at hres
+      obtain ⟨ht12, rt1⟩ := hres
+      obtain ⟨o1, o2, ho1, ho2, hk, hs⟩ := S.iso (t1, t2) ht12 rt1
+      simp only [ho1, ho2]
+      have hguard : (o1.kind = .imm ∨ t1 ∈ fro) ↔ (o2.kind = .imm ∨ t2 ∈ fro) := by
+        rw [hk]; exact or_congr Iff.rfl (S.fa (t1, t2) ht12)
+      by_cases hg : o1.kind = .imm ∨ t1 ∈ fro
+      · have hg2 := hguard.mp hg
+        simp only [hg, hg2, if_true]
+        exact ⟨φ, fun _ hp => hp, S⟩
+      · have hg2 : ¬ (o2.kind = .imm ∨ t2 ∈ fro) := fun h => hg (hguard.mpr h)
+        simp only [hg, hg2, if_false]
+        have hns := newSlots_rel S.iso S.haa hs w
+        cases n1 : newSlots h1 a o1.slots w with
+        | none =>
+          rw [n1] at hns
+          cases n2 : newSlots h2 a o2.slots w with
+          | none => exact ⟨φ, fun _ hp => hp, S⟩
+          | some r2 => rw [n2] at hns; simp [OptRel] at hns
+        | some r1 =>
+          rw [n1] at hns
+          cases n2 : newSlots h2 a o2.slots w with
+          | none => rw [n2] at hns; simp [OptRel] at hns
+          | some r2 =>
+            rw [n2] at hns
+            obtain ⟨ss1, fr1⟩ := r1
+            obtain ⟨ss2, fr2⟩ := r2
+            simp only [OptRel] at hns
+            obtain ⟨hrel, hfr, hrel0⟩ := hns
+            subst hfr
+            have ⟨hrefs, hfresh⟩ := newSlots_refs n1
+            have ht1 : t1 < h1.length := (S.bnd _ ht12).1
+            have ht2 : t2 < h2.length := (S.bnd _ ht12).2
+            have hreach := set_reach (fr := fr1) wf1 ha1 ho1 rt1 hrefs hfresh
+            -- the new relation
+            cases fr1 with
+            | none =>
+              have hrel' := hrel0 rfl
+              refine ⟨φ, fun _ hp => hp, ⟨?_, S.haa, S.inj, ?_, S.fa, ?_⟩⟩
+              · intro p hp rp
+                have hp1 := (S.bnd p hp).1
+                have hp2 := (S.bnd p hp).2
+                by_cases hpt : p.1 = t1
+                · have hpt2 : p.2 = t2 := (S.inj p hp (t1, t2) ht12).mp hpt
+                  refine ⟨⟨o1.kind, ss1⟩, ⟨o2.kind, ss2⟩, ?_, ?_, hk, hrel'⟩
+                  · rw [hpt]; exact getElem?_self ht1
+                  · rw [hpt2]; exact getElem?_self ht2
+                · have hpt2 : p.2 ≠ t2 := fun e => hpt ((S.inj p hp (t1, t2) ht12).mpr e)
+                  have rp0 : Reach h1 a p.1 := by
+                    rcases hreach p.1 rp with r | ⟨_, hs'⟩
+                    · exact r
+                    · simp at hs'
+                  obtain ⟨q1, q2, hq1, hq2, hq⟩ := S.iso p hp rp0
+                  exact ⟨q1, q2, by rw [getElem?_step' hp1 hpt]; exact hq1, by rw [getElem?_step' hp2 hpt2]; exact hq2, hq⟩
+              · intro p hp; simpa using S.bnd p hp
+              · intro x hx; simpa using S.fb x hx
+            | some f =>
+              have hsub : ∀ p ∈ φ, p ∈ φ ++ [(h1.length, h2.length)] := fun p hp => by simp [hp]
+              refine ⟨φ ++ [(h1.length, h2.length)], hsub, ⟨?_, hsub _ S.haa, ?_, ?_, ?_, ?_⟩⟩
+              · intro p hp rp
+                rcases List.mem_append.mp hp with hp | hp
+                · have hp1 := (S.bnd p hp).1
+                  have hp2 := (S.bnd p hp).2
+                  by_cases hpt : p.1 = t1
+                  · have hpt2 : p.2 = t2 := (S.inj p hp (t1, t2) ht12).mp hpt
+                    refine ⟨⟨o1.kind, ss1⟩, ⟨o2.kind, ss2⟩, ?_, ?_, hk, hrel⟩
+                    · rw [hpt]; exact getElem?_self ht1
+                    · rw [hpt2]; exact getElem?_self ht2
+                  · have hpt2 : p.2 ≠ t2 := fun e => hpt ((S.inj p hp (t1, t2) ht12).mpr e)
+                    have rp0 : Reach h1 a p.1 := by
+                      rcases hreach p.1 rp with r | ⟨e, _⟩
+                      · exact r
+                      · omega
+                    obtain ⟨q1, q2, hq1, hq2, hqk, hqs⟩ := S.iso p hp rp0
+                    exact ⟨q1, q2, by rw [getElem?_step' hp1 hpt]; exact hq1, by rw [getElem?_step' hp2 hpt2]; exact hq2,
+                      hqk, RelL.mono hsub hqs⟩
+                · simp only [List.mem_singleton] at hp
+                  subst hp
+                  refine ⟨f, f, ?_, ?_, rfl, relL_self_of_no_own _ (hfresh f rfl)⟩
+                  · simp
+                  · simp
+              · intro p hp q hq
+                rcases List.mem_append.mp hp with hp | hp <;> rcases List.mem_append.mp hq with hq | hq
+                · exact S.inj p hp q hq
+                · simp only [List.mem_singleton] at hq; subst hq
+                  have := S.bnd p hp
+                  constructor <;> intro e <;> simp only at e <;> omega
+                · simp only [List.mem_singleton] at hp; subst hp
+                  have := S.bnd q hq
+                  constructor <;> intro e <;> simp only at e <;> omega
+                · simp only [List.mem_singleton] at hp hq; subst hp; subst hq; simp
+              · intro p hp
+                rcases List.mem_append.mp hp with hp | hp
+                · have := S.bnd p hp; simp; omega
+                · simp only [List.mem_singleton] at hp; subst hp; simp
+              · intro p hp
+                rcases List.mem_append.mp hp with hp | hp
+                · exact S.fa p hp
+                · simp only [List.mem_singleton] at hp; subst hp
+                  constructor <;> intro e
+                  · have := (S.fb _ e).1; simp only at this; omega
+                  · have := (S.fb _ e).2; simp only at this; omega
+              · intro x hx; have := S.fb x hx; simp; omega
+
+private theorem apply1_length (fro : List Nat) (b : Nat) (h : Heap) (w : Write) : h.length ≤ (apply1 fro b h w).length := by
+  rcases (apply1_step fro b h w).unchanged_or with e | ⟨t, o, ss, fr, _, _, _, _, e, _, _⟩
+  · rw [e]; exact Nat.le_refl _
+  · rw [e]; simp
+
+/-- one write through `b` on the interleaved heap only -/
+private theorem sim_step_b {fro : List Nat} {φ : List (Nat × Nat)} {h1 h2 : Heap} {a b : Nat}
+    (S : SimInv fro φ h1 h2 a) (inv : Inv fro h1 a b) (w : Write) : SimInv fro φ (apply1 fro b h1 w) h2 a := by
+  have ⟨_, same⟩ := step_frame inv (apply1_step fro b h1 w)
+  have hl := apply1_length fro b h1 w
+  refine ⟨?_, S.haa, S.inj, ?_, S.fa, ?_⟩
+  · intro p hp rp
+    have rp0 : Reach h1 a p.1 := reach_local same p.1 rp
+    obtain ⟨o1, o2, ho1, ho2, hr⟩ := S.iso p hp rp0
+    exact ⟨o1, o2, by rw [same p.1 rp0]; exact ho1, ho2, hr⟩
+  · intro p hp; have := S.bnd p hp; exact ⟨by omega, this.2⟩
+  · intro x hx; have := S.fb x hx; exact ⟨by omega, this.2⟩
+
+private theorem relL_self {φ : List (Nat × Nat)} : ∀ (l : List Ref), (∀ c, Ref.own c ∈ l → (c, c) ∈ φ) → RelL φ l l := by
+  intro l
+  induction l with
+  | nil => intro _; simp [RelL]
+  | cons r rs ih =>
+    intro h
+    refine ⟨?_, ih (fun c hc => h c (by simp [hc]))⟩
+    cases r with
+    | val v => simp [RefRel]
+    | nav n => simp [RefRel]
+    | own c => simpa [RefRel] using h c (by simp)
+
+private theorem sim_init (fro : List Nat) (h : Heap) (a : Nat) (wf : WF h) (ha : a < h.length)
+    (hfro : ∀ x ∈ fro, x < h.length) : SimInv fro ((List.range h.length).map (fun i => (i, i))) h h a := by
+  have hmem : ∀ i, i < h.length → (i, i) ∈ (List.range h.length).map (fun i => (i, i)) := by
+    intro i hi; simp [hi]
+  have hof : ∀ p ∈ (List.range h.length).map (fun i => (i, i)), p.1 = p.2 ∧ p.1 < h.length := by
+    intro p hp
+    simp only [List.mem_map, List.mem_range] at hp
+    obtain ⟨i, hi, rfl⟩ := hp
+    exact ⟨rfl, hi⟩
+  refine ⟨?_, hmem a ha, ?_, ?_, ?_, ?_⟩
+  · intro p hp _
+    obtain ⟨e, hlt⟩ := hof p hp
+    have ho : h[p.1]? = some h[p.1] := List.getElem?_eq_getElem hlt
+    refine ⟨h[p.1], h[p.1], ho, by rw [← e]; exact ho, rfl, ?_⟩
+    apply relL_self
+    intro c hc
+    exact hmem c (wf p.1 c ⟨_, ho, hc⟩)
+  · intro p hp q hq
+    have := (hof p hp).1; have := (hof q hq).1
+    constructor <;> intro e <;> omega
+  · intro p hp; have := hof p hp; exact ⟨this.2, by omega⟩
+  · intro p hp; rw [(hof p hp).1]
+  · intro x hx; exact ⟨hfro x hx, hfro x hx⟩
+
+private theorem interleaved_solo_aux (fro : List Nat) (a b : Nat) (ws : List (Bool × Write)) :
+    ∀ (h1 h2 : Heap) (φ : List (Nat × Nat)), Inv fro h1 a b → SimInv fro φ h1 h2 a →
+      ∀ n, observe (applyTagged fro a b h1 ws) n (.own a) = observe (applyAll fro a h2 (writesOf false ws)) n (.own a) := by
+  induction ws with
+  | nil =>
+    intro h1 h2 φ _ S n
+    simpa [applyTagged, writesOf, applyAll] using iso_observe S.iso n a a S.haa Reach.refl
+  | cons tw ws ih =>
+    intro h1 h2 φ inv S n
+    obtain ⟨t, w⟩ := tw
+    cases t with
+    | true =>
+      have ⟨inv', _⟩ := step_frame inv (apply1_step fro b h1 w)
+      have S' := sim_step_b S inv w
+      simpa [applyTagged, writesOf] using ih _ h2 φ inv' S' n
+    | false =>
+      have invs : Inv fro h1 b a := ⟨inv.wf, inv.hb, inv.ha, sep_symm _ _ _ _ inv.sep⟩
+      have ⟨i', _⟩ := step_frame invs (apply1_step fro a h1 w)
+      have inv' : Inv fro (apply1 fro a h1 w) a b := ⟨i'.wf, i'.hb, i'.ha, sep_symm _ _ _ _ i'.sep⟩
+      obtain ⟨φ', _, S'⟩ := sim_step_a S inv.wf inv.ha w
+      simpa [applyTagged, writesOf, applyAll] using ih _ _ φ' inv' S' n
+
+private theorem applyTagged_swap (fro : List Nat) (a b : Nat) : ∀ (ws : List (Bool × Write)) (h : Heap),
+    applyTagged fro a b h ws = applyTagged fro b a h (ws.map (fun tw => (!tw.1, tw.2))) := by
+  intro ws
+  induction ws with
+  | nil => intro h; rfl
+  | cons tw ws ih =>
+    intro h
+    obtain ⟨t, w⟩ := tw
+    cases t <;> simp [applyTagged, ih]
+
+private theorem writesOf_swap (t : Bool) (ws : List (Bool × Write)) :
+    writesOf t (ws.map (fun tw => (!tw.1, tw.2))) = writesOf (!t) ws := by
+  induction ws with
+  | nil => rfl
+  | cons tw ws ih =>
+    obtain ⟨t', w⟩ := tw
+    simp only [writesOf, List.map_cons, List.filter_cons] at ih ⊢
+    cases t <;> cases t' <;> simp_all
+
+/-- **interleaved_solo**: two separated roots (two documents in one process) under ANY interleaving of writes through
+    the one and through the other: at the end each root observes, at every depth, exactly what it observes after its
+    OWN writes alone, applied to the initial heap (the two heaps differ by the addresses of the objects allocated on
+    the way; the proof is a simulation up to a partial bijection of addresses that grows with every allocation). -/
+theorem interleaved_solo (fro : List Nat) (h : Heap) (a b : Nat) (ws : List (Bool × Write))
+    (wf : WF h) (ha : a < h.length) (hb : b < h.length) (sep : Sep fro h a b) (hfro : ∀ x ∈ fro, x < h.length) :
+    (∀ n, observe (applyTagged fro a b h ws) n (.own a) = observe (applyAll fro a h (writesOf false ws)) n (.own a)) ∧
+    (∀ n, observe (applyTagged fro a b h ws) n (.own b) = observe (applyAll fro b h (writesOf true ws)) n (.own b)) := by
+  constructor
+  · exact interleaved_solo_aux fro a b ws h h _ ⟨wf, ha, hb, sep⟩ (sim_init fro h a wf ha hfro)
+  · intro n
+    rw [applyTagged_swap]
+    have := interleaved_solo_aux fro b a (ws.map (fun tw => (!tw.1, tw.2))) h h _
+      ⟨wf, hb, ha, sep_symm _ _ _ _ sep⟩ (sim_init fro h b wf hb hfro) n
+    rw [writesOf_swap] at this
+    simpa using this
+
 /-! ### the model of CopyStrategy.copy -/
 
 /-- induction over value trees: children of `node` / `ent` satisfy the property -/
@@ -619,6 +1280,244 @@ theorem copy_separates (rc : Nat → List Policy) (bl : Nat → List ATree) (fro
       · left; rw [isImm_of_getElem? (E.old hx)]; exact h2
       · exact Or.inr h2
 
+/-- `copy_separates` for an arbitrary result tree (the proof never looks at how the tree was made) -/
+private theorem alloc_separates (frozen : List Nat) (h : Heap) (wf : WF h) (a : Nat) (ha : a < h.length) (t' : ATree)
+    (hsh : ∀ s ∈ shares t', s < h.length)
+    (hfro : ∀ s ∈ shares t', ∀ x, Reach h s x → isImm h x = true ∨ x ∈ frozen)
+    (c : Nat) (hc : (alloc h t').2 = .own c) :
+    WF (alloc h t').1 ∧ a < (alloc h t').1.length ∧ c < (alloc h t').1.length ∧ Sep frozen (alloc h t').1 a c := by
+  have ⟨E, hr⟩ := alloc_ext_aux.1 t' h
+  rw [hc] at hr
+  simp only [RefOK] at hr
+  have hl := E.len
+  refine ⟨ext_wf wf hsh E, by omega, ?_, ?_⟩
+  · rcases hr with ⟨_, h2⟩ | h1
+    · exact h2
+    · have := hsh c h1; omega
+  · intro x ra rb
+    have ra0 : Reach h a x := ext_old_reach wf E ha x ra
+    have hx : x < h.length := reach_lt wf ha ra0
+    have hcstart : h.length ≤ c ∨ ∃ s ∈ shares t', Reach h s c := by
+      rcases hr with ⟨h1, _⟩ | h1
+      · exact Or.inl h1
+      · exact Or.inr ⟨c, h1, Reach.refl⟩
+    rcases ext_reach wf hsh E c x hcstart rb with h1 | ⟨s, hs, rs⟩
+    · omega
+    · rcases hfro s hs x rs with h2 | h2
+      · left; rw [isImm_of_getElem? (E.old hx)]; exact h2
+      · exact Or.inr h2
+
+/-! ### recipes as programs (Model/HeapRecipe.lean): every class, every source tree -/
+
+/-- **recipe_shares_ok**: for every recipe table `rc` that passes the static check `partsSafe` against a type table
+    `cty` (class by class), every heap, every well typed source tree `t` that the heap holds, and every table of
+    generator inputs: whatever the model copy `copyTop rc env t` references instead of copying is a value that is
+    harmless to share (`okT`: immutable kinds and members of the Frozen list only) and that the heap holds. -/
+theorem recipe_shares_ok (rc : Nat → List PPol) (cty : Nat → List Ty) (env : Nat → ATree) (h : Heap) (fro : List Nat)
+    (hsafe : ∀ c, partsSafe (rc c) (cty c) = true)
+    (henv : ∀ i, wt fro cty (env i) = true ∧ ∃ r, Rep h (env i) r)
+    (t : ATree) (r : Ref) (hw : wt fro cty t = true) (hr : Rep h t r) :
+    ∀ p ∈ sharesO (copyTop rc env t), okT fro p.2 = true ∧ noSh p.2 = true ∧ Rep h p.2 (.own p.1) :=
+  Recipe.copyTop_good rc cty env h fro hsafe henv t r hw hr
+
+/-- **recipe_separates**: under the same hypotheses, building the copy in the heap gives a root `c` that is
+    separated from the source `a` in the sense of `frame` - for every safe recipe table, heap, source tree. -/
+theorem recipe_separates (rc : Nat → List PPol) (cty : Nat → List Ty) (env : Nat → ATree) (h : Heap) (fro : List Nat)
+    (hsafe : ∀ c, partsSafe (rc c) (cty c) = true)
+    (henv : ∀ i, wt fro cty (env i) = true ∧ ∃ r, Rep h (env i) r)
+    (wf : WF h) (a : Nat) (t : ATree) (hw : wt fro cty t = true) (hr : Rep h t (.own a)) (ha : a < h.length)
+    (c : Nat) (hc : (copyInto rc env h t).2 = .own c) :
+    WF (copyInto rc env h t).1 ∧ a < (copyInto rc env h t).1.length ∧ c < (copyInto rc env h t).1.length ∧
+    Sep fro (copyInto rc env h t).1 a c := by
+  have hg := Recipe.copyTop_good rc cty env h fro hsafe henv t (.own a) hw hr
+  have ⟨h1, h2⟩ := Recipe.good_shares hg
+  exact alloc_separates fro h wf a ha (copyTop rc env t) h1 h2 c hc
+
+/-- **flow_frame** (virtual_entities / explode / copy_to_layout / add_attrib as heap programs): produce the copy,
+    then do ANY sequence of writes through it (transformation, re-linking into a layout's entity list, new
+    attributes, ...): the observation of the source is unchanged, at every depth, and source and product stay
+    separated (so the next product, or writes through the source, are covered again). -/
+theorem flow_frame (rc : Nat → List PPol) (cty : Nat → List Ty) (env : Nat → ATree) (h : Heap) (fro : List Nat)
+    (hsafe : ∀ c, partsSafe (rc c) (cty c) = true)
+    (henv : ∀ i, wt fro cty (env i) = true ∧ ∃ r, Rep h (env i) r)
+    (wf : WF h) (a : Nat) (t : ATree) (hw : wt fro cty t = true) (hr : Rep h t (.own a)) (ha : a < h.length)
+    (c : Nat) (hc : (copyInto rc env h t).2 = .own c) (ws : List Write) :
+    (∀ n, observe (applyAll fro c (copyInto rc env h t).1 ws) n (.own a) = observe h n (.own a)) ∧
+    Sep fro (applyAll fro c (copyInto rc env h t).1 ws) a c := by
+  obtain ⟨wf', ha', hc', sep⟩ := recipe_separates rc cty env h fro hsafe henv wf a t hw hr ha c hc
+  refine ⟨fun n => ?_, (sep_preserved fro _ a c ws wf' ha' hc' sep).2⟩
+  rw [frame fro _ a c ws wf' ha' hc' sep n]
+  -- building the copy appends objects to the heap: what the source observes is what it observed before
+  have ⟨E, _⟩ := alloc_ext_aux.1 (copyTop rc env t) h
+  exact observe_local n a (fun x rx => E.old (reach_lt wf ha rx))
+
+/-! ### flows: many products collected under one root -/
+
+private theorem ext_sep {h0 h' : Heap} {sh : List Nat} {fro : List Nat} {a b : Nat} (wf : WF h0) (E : Ext h0 sh h')
+    (ha : a < h0.length) (hb : b < h0.length) (sep : Sep fro h0 a b) : Sep fro h' a b := by
+  intro x ra rb
+  have ra0 := ext_old_reach wf E ha x ra
+  have rb0 := ext_old_reach wf E hb x rb
+  have hx := reach_lt wf ha ra0
+  rcases sep x ra0 rb0 with h1 | h1
+  · left; rw [isImm_of_getElem? (E.old hx)]; exact h1
+  · exact Or.inr h1
+
+/-- appending an owning reference to a separated object `c` to the mutable collection `b` keeps `a` and `b` separated -/
+private theorem push_sep {fro : List Nat} {h : Heap} {a b c : Nat} {o : Obj}
+    (wf : WF h) (_ha : a < h.length) (hc : c < h.length) (sab : Sep fro h a b) (sac : Sep fro h a c)
+    (ho : h[b]? = some o) (hk : o.kind ≠ .imm) (hf : b ∉ fro) :
+    WF (h.set b ⟨o.kind, o.slots ++ [.own c]⟩) ∧ Sep fro (h.set b ⟨o.kind, o.slots ++ [.own c]⟩) a b ∧
+    (∀ x, Reach h a x → (h.set b ⟨o.kind, o.slots ++ [.own c]⟩)[x]? = h[x]?) := by
+  have hbl : b < h.length := by
+    rcases Nat.lt_or_ge b h.length with hl | hl
+    · exact hl
+    · rw [List.getElem?_eq_none hl] at ho; simp at ho
+  have hnab : ¬ Reach h a b := by
+    intro r
+    rcases sab b r Reach.refl with h1 | h1
+    · simp [isImm, ho] at h1; exact hk h1
+    · exact hf h1
+  have same : ∀ x, Reach h a x → (h.set b ⟨o.kind, o.slots ++ [.own c]⟩)[x]? = h[x]? := by
+    intro x rx
+    exact List.getElem?_set_ne (by intro e; subst e; exact hnab rx)
+  have hobj : ∀ y o', (h.set b ⟨o.kind, o.slots ++ [.own c]⟩)[y]? = some o' →
+      (y ≠ b ∧ h[y]? = some o') ∨ (y = b ∧ o' = ⟨o.kind, o.slots ++ [.own c]⟩) := by
+    intro y o' hy
+    by_cases hyb : y = b
+    · subst hyb
+      rw [List.getElem?_set_self hbl] at hy
+      simp at hy
+      exact Or.inr ⟨rfl, hy.symm⟩
+    · rw [List.getElem?_set_ne (Ne.symm hyb)] at hy
+      exact Or.inl ⟨hyb, hy⟩
+  have reachB : ∀ x, Reach (h.set b ⟨o.kind, o.slots ++ [.own c]⟩) b x → Reach h b x ∨ Reach h c x := by
+    intro x r
+    induction r with
+    | refl => exact Or.inl Reach.refl
+    | @step y x _ e ih =>
+      obtain ⟨o', ho', hm⟩ := e
+      rcases hobj y o' ho' with ⟨_, hy⟩ | ⟨hy, rfl⟩
+      · rcases ih with ih | ih
+        · exact Or.inl (Reach.step ih ⟨o', hy, hm⟩)
+        · exact Or.inr (Reach.step ih ⟨o', hy, hm⟩)
+      · subst hy
+        simp only [List.mem_append, List.mem_singleton] at hm
+        rcases hm with hm | hm
+        · exact Or.inl (Reach.step Reach.refl ⟨o, ho, hm⟩)
+        · simp at hm; subst hm; exact Or.inr Reach.refl
+  refine ⟨?_, ?_, same⟩
+  · intro y x ⟨o', ho', hm⟩
+    simp only [List.length_set]
+    rcases hobj y o' ho' with ⟨_, hy⟩ | ⟨_, rfl⟩
+    · exact wf y x ⟨o', hy, hm⟩
+    · simp only [List.mem_append, List.mem_singleton] at hm
+      rcases hm with hm | hm
+      · exact wf b x ⟨o, ho, hm⟩
+      · simp at hm; subst hm; exact hc
+  · intro x ra rb
+    have ra' : Reach h a x := reach_local same x ra
+    have himm : isImm (h.set b ⟨o.kind, o.slots ++ [.own c]⟩) x = isImm h x := isImm_of_getElem? (same x ra')
+    rcases reachB x rb with rb' | rc'
+    · rcases sab x ra' rb' with h1 | h1
+      · exact Or.inl (by rw [himm]; exact h1)
+      · exact Or.inr h1
+    · rcases sac x ra' rc' with h1 | h1
+      · exact Or.inl (by rw [himm]; exact h1)
+      · exact Or.inr h1
+
+/-- the invariant of a flow: `a` and the collection `b` are separated and `b` is a mutable, non frozen object -/
+private structure FInv (fro : List Nat) (h : Heap) (a b : Nat) : Prop where
+  inv : Inv fro h a b
+  coll : ∃ o, h[b]? = some o ∧ o.kind ≠ .imm
+
+private theorem apply1_kind (fro : List Nat) (b : Nat) (h : Heap) (w : Write) (x : Nat) (o : Obj)
+    (ho : h[x]? = some o) : ∃ o', (apply1 fro b h w)[x]? = some o' ∧ o'.kind = o.kind := by
+  have hx : x < h.length := by
+    rcases Nat.lt_or_ge x h.length with hl | hl
+    · exact hl
+    · rw [List.getElem?_eq_none hl] at ho; simp at ho
+  rcases (apply1_step fro b h w).unchanged_or with e | ⟨t, o1, ss, fr, ho1, _, _, _, e, _, _⟩
+  · rw [e]; exact ⟨o, ho, rfl⟩
+  · rw [e]
+    by_cases hxt : x = t
+    · subst hxt
+      rw [List.getElem?_append_left (by simpa using hx), List.getElem?_set_self hx]
+      rw [ho] at ho1
+      simp only [Option.some.injEq] at ho1
+      subst ho1
+      exact ⟨_, rfl, rfl⟩
+    · rw [getElem?_step hx hxt]; exact ⟨o, ho, rfl⟩
+
+private theorem flow_step (rc : Nat → List PPol) (cty : Nat → List Ty) (env : Nat → ATree) (fro : List Nat)
+    (hsafe : ∀ c, partsSafe (rc c) (cty c) = true) (a b : Nat) (hbf : b ∉ fro) (h : Heap) (s : FlowStep)
+    (I : FInv fro h a b)
+    (ok : StepOK cty env fro h s) :
+    FInv fro (flowStep rc env fro b h s) a b ∧ ∀ x, Reach h a x → (flowStep rc env fro b h s)[x]? = h[x]? := by
+  cases s with
+  | write w =>
+    have ⟨inv', same⟩ := step_frame I.inv (apply1_step fro b h w)
+    obtain ⟨o, ho, hk⟩ := I.coll
+    obtain ⟨o', ho', hk'⟩ := apply1_kind fro b h w b o ho
+    exact ⟨⟨inv', o', ho', by rw [hk']; exact hk⟩, same⟩
+  | produce t =>
+    simp only [StepOK] at ok
+    obtain ⟨hw, ⟨r0, hr0⟩, henv⟩ := ok
+    have wf := I.inv.wf
+    have ha := I.inv.ha
+    have hb := I.inv.hb
+    obtain ⟨o, ho, hk⟩ := I.coll
+    have hg := Recipe.copyTop_good rc cty env h fro hsafe henv t r0 hw hr0
+    have ⟨hsh, hfro⟩ := Recipe.good_shares hg
+    have ⟨E, hrr⟩ := alloc_ext_aux.1 (copyTop rc env t) h
+    have hl := E.len
+    have wf1 : WF (alloc h (copyTop rc env t)).1 := ext_wf wf hsh E
+    have sep1 : Sep fro (alloc h (copyTop rc env t)).1 a b := ext_sep wf E ha hb I.inv.sep
+    have hob : (alloc h (copyTop rc env t)).1[b]? = some o := by rw [E.old hb]; exact ho
+    have same1 : ∀ x, Reach h a x → (alloc h (copyTop rc env t)).1[x]? = h[x]? :=
+      fun x rx => E.old (reach_lt wf ha rx)
+    have inv1 : Inv fro (alloc h (copyTop rc env t)).1 a b := ⟨wf1, by omega, by omega, sep1⟩
+    simp only [flowStep, produceInto, copyInto]
+    cases hc : (alloc h (copyTop rc env t)).2 with
+    | val v => simp only []; exact ⟨⟨inv1, o, hob, hk⟩, same1⟩
+    | nav n => simp only []; exact ⟨⟨inv1, o, hob, hk⟩, same1⟩
+    | own c =>
+      simp only [hob]
+      obtain ⟨_, _, hc1, sac⟩ := alloc_separates fro h wf a ha (copyTop rc env t) hsh hfro c hc
+      have ⟨wf2, sep2, same2⟩ := push_sep (c := c) wf1 (by omega) hc1 sep1 sac hob hk hbf
+      have hb1 : b < (alloc h (copyTop rc env t)).1.length := by omega
+      refine ⟨⟨⟨wf2, by simp; omega, by simp; omega, sep2⟩, ⟨⟨o.kind, o.slots ++ [.own c]⟩, List.getElem?_set_self hb1, hk⟩⟩, ?_⟩
+      intro x rx
+      have rx1 : Reach (alloc h (copyTop rc env t)).1 a x :=
+        reach_local (h := (alloc h (copyTop rc env t)).1) (h' := h)
+          (fun y ry => (E.old (reach_lt wf ha (ext_old_reach wf E ha y ry))).symm) x rx
+      rw [same2 x rx1, same1 x rx]
+
+/-- **flows_frame**: a flow is any interleaving of (a) producing the strategy copy of a value tree of the current
+    heap and appending it to the collection `b` and (b) arbitrary writes through `b` (transformations of the
+    products, re-linking, new attributes, deleting products ...).  If `a` and the collection are separated at the start
+    then after the whole flow the observation of `a` is unchanged at every depth, and they are still separated - for
+    every safe recipe table, every heap, every flow of any length. -/
+theorem flows_frame (rc : Nat → List PPol) (cty : Nat → List Ty) (env : Nat → ATree) (fro : List Nat)
+    (hsafe : ∀ c, partsSafe (rc c) (cty c) = true) (h : Heap) (a b : Nat)
+    (wf : WF h) (ha : a < h.length) (hb : b < h.length) (sep : Sep fro h a b)
+    (hcoll : ∃ o, h[b]? = some o ∧ o.kind ≠ .imm) (hbf : b ∉ fro)
+    (ss : List FlowStep) (ok : FlowOK rc cty env fro b h ss) :
+    (∀ n, observe (runFlow rc env fro b h ss) n (.own a) = observe h n (.own a)) ∧
+    WF (runFlow rc env fro b h ss) ∧ Sep fro (runFlow rc env fro b h ss) a b := by
+  have I : FInv fro h a b := ⟨⟨wf, ha, hb, sep⟩, hcoll⟩
+  clear wf ha hb sep hcoll
+  induction ss generalizing h with
+  | nil => exact ⟨fun _ => rfl, I.inv.wf, I.inv.sep⟩
+  | cons s ss ih =>
+    simp only [FlowOK] at ok
+    have ⟨I', same⟩ := flow_step rc cty env fro hsafe a b hbf h s I ok.1
+    have ⟨h1, h2, h3⟩ := ih _ ok.2 I'
+    refine ⟨fun n => ?_, h2, h3⟩
+    simp only [runFlow]
+    rw [h1 n]
+    exact observe_local n a same
+
 /-- the value of the copy of a well formed entity without extension dictionary whose recipe only uses
     deepcopy / alias / shallow copy: the value of the source with handle, owner and reactors `None` and
     `source_of_copy` set - **copy_equal** -/
@@ -740,6 +1639,94 @@ theorem recipes_sharing_allowed :
     Gen.HeapGraphs.recipes.all recipeOK = true ∧ 80 ≤ Gen.HeapGraphs.recipes.length := by
   decide +kernel
 
+private theorem lookupL_safe (rcT : List (Nat × List PPol)) (ctyT : List (Nat × List Ty))
+    (hs : tableSafe rcT ctyT = true) (c : Nat) : partsSafe (lookupL rcT c) (lookupL ctyT c) = true := by
+  unfold lookupL
+  cases hf : rcT.find? (fun r => r.1 == c) with
+  | none => simp [partsSafe]
+  | some r =>
+    have hm : r ∈ rcT := List.mem_of_find?_eq_some hf
+    have hc : (r.1 == c) = true := by simpa using List.find?_some hf
+    simp only [tableSafe, List.all_eq_true] at hs
+    have := hs r hm
+    simp only [beq_iff_eq] at hc
+    subst hc
+    simpa [lookupL] using this
+
+/-- **recipes_safe**: the recipe table translated on this run from the source text of EVERY `copy_data`, `copy`,
+    `__copy__`, `__deepcopy__`, `deep_copy` ... method under src/ezdxf/entities (T-ast) passes the static check
+    against the type table inferred on this run from the populated instances (T-heap): a policy passes by reference
+    only parts whose type is `ok`.  (A `deepcopy` replaced by a reference, a flat hand written `__deepcopy__`, a
+    helper `copy()` that shares a list ... make this fail.) -/
+theorem recipes_safe :
+    tableSafe Gen.HeapGraphs.recipesP Gen.HeapGraphs.partTypes = true ∧
+    60 ≤ Gen.HeapGraphs.recipesP.length := by
+  decide +kernel
+
+/-- **recipes_complete**: no copy method of the package was left untranslated, every method found by the scanner
+    is accounted for, and every `ok` in the type table is backed by the explicit allow lists. -/
+theorem recipes_complete :
+    Gen.HeapGraphs.untranslated = [] ∧ 50 ≤ Gen.HeapGraphs.copyMethods.length ∧
+    Gen.HeapGraphs.copyMethods.all (fun m => copyDispositions.contains m.2) = true ∧
+    Gen.HeapGraphs.okParts.all (fun r => partListed aliasAllowed r.1 r.2 || partListed shallowAllowed r.1 r.2
+      || partListed helperAllowed r.1 r.2) = true := by
+  decide +kernel
+
+/-- **all_recipes_separate**: `recipe_separates` and `flow_frame` instantiated with the generated tables: for EVERY
+    registered class (every row of the regenerated recipe table; classes without a row copy every part by
+    deepcopy), every heap without dangling references and every well typed source tree in it, the model copy is
+    separated from its source, stays so under any writes through the copy, and the source observes the same. -/
+theorem all_recipes_separate (env : Nat → ATree) (h : Heap) (fro : List Nat)
+    (henv : ∀ i, wt fro (lookupL Gen.HeapGraphs.partTypes) (env i) = true ∧ ∃ r, Rep h (env i) r)
+    (wf : WF h) (a : Nat) (t : ATree) (hw : wt fro (lookupL Gen.HeapGraphs.partTypes) t = true)
+    (hr : Rep h t (.own a)) (ha : a < h.length)
+    (c : Nat) (hc : (copyInto (lookupL Gen.HeapGraphs.recipesP) env h t).2 = .own c) (ws : List Write) :
+    Sep fro (copyInto (lookupL Gen.HeapGraphs.recipesP) env h t).1 a c ∧
+    (∀ n, observe (applyAll fro c (copyInto (lookupL Gen.HeapGraphs.recipesP) env h t).1 ws) n (.own a)
+            = observe h n (.own a)) ∧
+    Sep fro (applyAll fro c (copyInto (lookupL Gen.HeapGraphs.recipesP) env h t).1 ws) a c := by
+  have hsafe := lookupL_safe _ _ recipes_safe.1
+  have h1 := recipe_separates _ _ env h fro hsafe henv wf a t hw hr ha c hc
+  have h2 := flow_frame _ _ env h fro hsafe henv wf a t hw hr ha c hc ws
+  exact ⟨h1.2.2.2, h2.1, h2.2⟩
+
+/-- **all_flows_separate**: `flows_frame` instantiated with the generated tables: for every registered class, any
+    flow (any interleaving of producing strategy copies of value trees of the current heap into a collection and
+    writes through the collection) leaves the observation of every root that was separated from the collection at the
+    start unchanged, and keeps them separated. -/
+theorem all_flows_separate (env : Nat → ATree) (fro : List Nat) (h : Heap) (a b : Nat)
+    (wf : WF h) (ha : a < h.length) (hb : b < h.length) (sep : Sep fro h a b)
+    (hcoll : ∃ o, h[b]? = some o ∧ o.kind ≠ .imm) (hbf : b ∉ fro) (ss : List FlowStep)
+    (ok : FlowOK (lookupL Gen.HeapGraphs.recipesP) (lookupL Gen.HeapGraphs.partTypes) env fro b h ss) :
+    (∀ n, observe (runFlow (lookupL Gen.HeapGraphs.recipesP) env fro b h ss) n (.own a) = observe h n (.own a)) ∧
+    WF (runFlow (lookupL Gen.HeapGraphs.recipesP) env fro b h ss) ∧
+    Sep fro (runFlow (lookupL Gen.HeapGraphs.recipesP) env fro b h ss) a b :=
+  flows_frame _ _ env fro (lookupL_safe _ _ recipes_safe.1) h a b wf ha hb sep hcoll hbf ss ok
+
+/-- **globals_guarded**: the obligation table for module level state, regenerated on every run from the live modules:
+    every module level / class level mutable object, every mutable default argument and every lru cache of the
+    loaded ezdxf modules (add-ons excluded) is `stable` - the battery of document operations (copies by all routes,
+    virtual entities, new / readfile / recover, save), run a second time after a warm-up run, leaves its content
+    unchanged (write-barrier probe by content) and no mutable object below it is held by identity by any document or
+    entity instance - or it is on one of the two explicit allow lists (both empty).  (Reverting fix 6d1f8396b makes
+    the visual style templates of tools/standards.py `handed-out`.) -/
+theorem globals_guarded :
+    Gen.HeapGraphs.globalsTable.all globalOK = true ∧ 500 ≤ Gen.HeapGraphs.globalsTable.length := by
+  decide +kernel
+
+/-- **flow_effects_allowed**: the tie of `flows_frame` to the source text of the flow functions (regenerated on
+    every run): in virtual_block_reference_entities, explode_block_reference, explode_entity, attrib_to_text,
+    copy_to_layout, duplicate_entity, add_attrib, add_auto_attribs, multi_insert, the INSERT and DIMENSION generators,
+    copy_data of DIMENSION, DXFEntity.copy, _new_compound_entity and the virtual_entities / explode methods of POLYLINE,
+    LWPOLYLINE, LEADER, MULTILEADER, MLINE, POINT every store, every call with unknown effect and every
+    hand-out concerns a PRODUCT of the function (strategy copy / new object / result of another flow) - the "produce"
+    and "write through the products" steps of `flows_frame` - or is one of the listed effects on the target collection.
+    (Yielding the block's own entity, transforming it in place, storing into it ... add a row that is not listed.) -/
+theorem flow_effects_allowed :
+    Gen.HeapGraphs.flowEffects.all (fun e => flowEffectsAllowed.contains e) = true ∧
+    Gen.HeapGraphs.flowMissing = [] ∧ 30 ≤ Gen.HeapGraphs.flowFunctionCount ∧ 250 ≤ Gen.HeapGraphs.flowStatementCount := by
+  decide +kernel
+
 /-- the extractor skipped only navigation references of the documented kinds -/
 theorem nav_edges_allowed :
     Gen.HeapGraphs.navUsed.all (fun n => allowedNav.contains n) = true := by
@@ -775,6 +1762,15 @@ example : checkGraph [] separatedGraph = false := by decide
 example : WF separatedGraph.heap ∧ Sep separatedGraph.frozenIds separatedGraph.heap 0 1 :=
   let s := check_sound allowedFrozen separatedGraph (by decide)
   ⟨s.1, s.2.2.2⟩
+/-- the hypotheses of `interleaved_frame` / `interleaved_solo` are satisfiable: the separated example graph with its
+    frozen resource 4, and an interleaving with allocations on both sides (so the fresh addresses differ from the solo runs) -/
+example : ∀ n, observe (applyTagged [4] 0 1 separatedGraph.heap
+      [(true, .pushNew [0] .cell [5]), (false, .pushNew [0] .cont [6, 7]), (true, .push [0] 8), (false, .setVal [0, 0] 0 9)]) n (.own 0)
+    = observe (applyAll [4] 0 separatedGraph.heap [.pushNew [0] .cont [6, 7], .setVal [0, 0] 0 9]) n (.own 0) :=
+  let s := check_sound allowedFrozen separatedGraph (by decide)
+  (interleaved_solo [4] separatedGraph.heap 0 1 _ s.1 s.2.1 s.2.2.1 s.2.2.2 (by decide)).1
+#guard reprStr (observe (applyAll [4] 0 separatedGraph.heap [.pushNew [0] .cont [6, 7], .setVal [0, 0] 0 9]) 4 (.own 0))
+        != reprStr (observe separatedGraph.heap 4 (.own 0))
 #guard reprStr (observe (applyAll [4] 1 separatedGraph.heap [.push [0] 5, .setNew [] 0 .cont [1, 2]]) 4 (.own 1))
         != reprStr (observe separatedGraph.heap 4 (.own 1))
 #guard reprStr (observe (applyAll [4] 1 separatedGraph.heap [.push [0] 5, .setNew [] 0 .cont [1, 2]]) 4 (.own 0))
@@ -783,6 +1779,50 @@ example : WF separatedGraph.heap ∧ Sep separatedGraph.frozenIds separatedGraph
 #guard reprStr (observe (applyAll [4] 1 separatedGraph.heap [.push [1] 5]) 4 (.own 0))
         == reprStr (observe separatedGraph.heap 4 (.own 0))
 
+/-! program recipes: non-vacuity.  The example table is safe; the example trees are well typed; the copies reference
+    exactly the aliased tuple (14) and the first field of the helper object (17); a DIMENSION like entity takes the
+    generator branch without virtual content and the strategy-copy branch with it; tables that are not safe (alias of a mutable
+    part, a flat copy of a list of lists, a helper copy that passes a mutable field by reference) are rejected. -/
+#guard partsSafe (rcP 0) (ctyP 0) && partsSafe (rcP 2) (ctyP 2) && partsSafe (rcP 3) (ctyP 3)
+#guard !partsSafe [.one .alias] [.any]
+#guard !partsSafe [.one (.each .alias)] [.coll (.coll .ok)]
+#guard !partsSafe [.one (.fields [.alias, .alias])] [.obj [.ok, .any]]
+#guard wt [] ctyP entP && wt [] ctyP dimP && wt [] ctyP dimVirtualP && wt [] ctyP (envP 0) && wt [] ctyP tinyT
+#guard shares (copyTop rcP envP entP) == [14, 17]
+#guard shares (copyTop rcP envP dimP) == [] && shares (copyTop rcP envP dimVirtualP) == []
+#guard reprStr (content (copyTop rcP envP dimP)) != reprStr (content (copyTop rcP envP dimVirtualP))
+#guard tableSafe [(0, rcP 0), (2, rcP 2), (3, rcP 3)] [(0, ctyP 0), (2, ctyP 2), (3, ctyP 3)]
+#guard !tableSafe [(0, [.one .alias])] [(0, [.any])]
+
+private theorem tiny_rep : Rep tinyHeap tinyT (.own 0) := by
+  simp [tinyT, tinyHeap, Rep, RepL]
+
+private theorem tiny_safe : ∀ c, partsSafe (rcP c) (ctyP c) = true := by
+  intro c
+  unfold rcP ctyP
+  split
+  · decide
+  · split
+    · decide
+    · split <;> decide
+
+/-- the hypotheses of `recipe_separates` / `flow_frame` are satisfiable: a concrete heap, a source entity whose
+    recipe passes an immutable tuple by reference, its copy at address 4; a write through the copy changes what the
+    copy observes and not what the source observes -/
+example : Sep [] (copyInto rcP (fun _ => .leaf NONE) tinyHeap tinyT).1 0 4 ∧
+    (∀ n, observe (applyAll [] 4 (copyInto rcP (fun _ => .leaf NONE) tinyHeap tinyT).1 [.setVal [1] 2 77]) n (.own 0)
+          = observe tinyHeap n (.own 0)) := by
+  have henv : ∀ i : Nat, wt [] ctyP ((fun _ => ATree.leaf NONE) i) = true ∧ ∃ r, Rep tinyHeap ((fun _ => ATree.leaf NONE) i) r :=
+    fun _ => ⟨by simp [wt], .val NONE, by simp [Rep]⟩
+  have hwf : WF tinyHeap := wf_of_check _ (by decide)
+  have h1 := recipe_separates rcP ctyP (fun _ => .leaf NONE) tinyHeap [] tiny_safe henv hwf 0 tinyT (by decide) tiny_rep
+    (by decide) 4 (by decide)
+  have h2 := flow_frame rcP ctyP (fun _ => .leaf NONE) tinyHeap [] tiny_safe henv hwf 0 tinyT (by decide) tiny_rep
+    (by decide) 4 (by decide) [.setVal [1] 2 77]
+  exact ⟨h1.2.2.2, h2.1⟩
+#guard reprStr (observe (applyAll [] 4 (copyInto rcP (fun _ => .leaf NONE) tinyHeap tinyT).1 [.setVal [1] 2 77]) 3 (.own 4))
+        != reprStr (observe (copyInto rcP (fun _ => .leaf NONE) tinyHeap tinyT).1 3 (.own 4))
+
 #guard shapeOK rcEx entEx
 #guard noHandle rcEx (copyT rcEx blEx entEx)
 #guard !noHandle rcEx entEx          -- the source has handles
@@ -790,5 +1830,63 @@ example : WF separatedGraph.heap ∧ Sep separatedGraph.frozenIds separatedGraph
 -- of the shallow copied part (23) - nothing else
 #guard shares (copyT rcEx blEx entEx) == [12, 21, 23]
 #guard (alloc [] (copyT rcEx blEx entEx)).1.length == 15
+
+/-- reachability in a concrete heap: a set that contains `r` and is closed under owning references contains everything
+    reachable from `r` (used by the examples) -/
+private def closedH (h : Heap) (r : Nat) (s : List Nat) : Bool :=
+  s.contains r && s.all (fun i => match h[i]? with
+    | some o => o.slots.all (fun x => match x with | .own c => s.contains c | _ => true)
+    | none => true)
+
+private theorem closedH_reach (h : Heap) (r : Nat) (s : List Nat) (hc : closedH h r s = true) :
+    ∀ x, Reach h r x → x ∈ s := by
+  simp only [closedH, Bool.and_eq_true, List.all_eq_true, List.contains_eq_mem, decide_eq_true_eq] at hc
+  intro x rx
+  induction rx with
+  | refl => exact hc.1
+  | step _ e ih =>
+    obtain ⟨o, ho, hm⟩ := e
+    have := hc.2 _ ih
+    simp only [ho, List.all_eq_true] at this
+    simpa using this _ hm
+
+private theorem sep_of_closed (fro : List Nat) (h : Heap) (a b : Nat) (sa sb : List Nat)
+    (ha : closedH h a sa = true) (hb : closedH h b sb = true)
+    (hd : sa.all (fun x => !sb.contains x || isImm h x || fro.contains x) = true) : Sep fro h a b := by
+  intro x ra rb
+  have xa := closedH_reach h a sa ha x ra
+  have xb := closedH_reach h b sb hb x rb
+  simp only [List.all_eq_true, Bool.or_eq_true, Bool.not_eq_true', List.contains_eq_mem, decide_eq_false_iff_not,
+    decide_eq_true_eq] at hd
+  rcases hd x xa with (h1 | h1) | h1
+  · exact absurd xb h1
+  · exact Or.inl h1
+  · exact Or.inr h1
+
+/-- the hypotheses of `flows_frame` are satisfiable: the tiny heap with an empty list at address 3 as collection; the
+    flow copies the entity at 0 into the list and then writes through the list into the namespace of the product -/
+
+example : ∀ n, observe (runFlow rcP (fun _ => .leaf NONE) [] 3 (tinyHeap ++ [⟨.cont, []⟩]) tinyFlow) n (.own 0)
+    = observe (tinyHeap ++ [⟨.cont, []⟩]) n (.own 0) := by
+  have hrep : Rep (tinyHeap ++ [⟨.cont, []⟩]) tinyT (.own 0) := by simp [tinyT, tinyHeap, Rep, RepL]
+  have hok : FlowOK rcP ctyP (fun _ => .leaf NONE) [] 3 (tinyHeap ++ [⟨.cont, []⟩]) tinyFlow := by
+    simp only [tinyFlow, FlowOK, StepOK, and_true]
+    exact ⟨by decide, ⟨_, hrep⟩, fun _ => ⟨by simp [wt], .val NONE, by simp [Rep]⟩⟩
+  exact (flows_frame rcP ctyP (fun _ => .leaf NONE) [] tiny_safe _ 0 3 (wf_of_check _ (by decide)) (by decide) (by decide)
+    (sep_of_closed [] _ 0 3 [0, 1, 2] [3] (by decide) (by decide) (by decide))
+    ⟨⟨.cont, []⟩, by decide, by decide⟩ (by decide) tinyFlow hok).1
+-- the write is not a no-op: the product (slot 0 of the collection) has the new value in its namespace
+#guard reprStr (observe (runFlow rcP (fun _ => .leaf NONE) [] 3 (tinyHeap ++ [⟨.cont, []⟩]) tinyFlow) 4 (.own 3))
+        != reprStr (observe (runFlow rcP (fun _ => .leaf NONE) [] 3 (tinyHeap ++ [⟨.cont, []⟩]) [.produce tinyT]) 4 (.own 3))
+#guard reprStr (observe (runFlow rcP (fun _ => .leaf NONE) [] 3 (tinyHeap ++ [⟨.cont, []⟩]) [.produce tinyT]) 4 (.own 3))
+        != reprStr (observe (tinyHeap ++ [⟨.cont, []⟩]) 4 (.own 3))
+
+-- non-vacuity: the separated example graph; a write through the copy, one through the source, one through the copy
+#guard reprStr (observe (applyTagged [4] 0 1 separatedGraph.heap [(true, .push [0] 5), (false, .push [0] 6), (true, .push [0] 7)]) 4 (.own 0))
+        == reprStr (observe (applyAll [4] 0 separatedGraph.heap [.push [0] 6]) 4 (.own 0))
+#guard reprStr (observe (applyTagged [4] 0 1 separatedGraph.heap [(true, .push [0] 5), (false, .push [0] 6), (true, .push [0] 7)]) 4 (.own 1))
+        == reprStr (observe (applyAll [4] 1 separatedGraph.heap [.push [0] 5, .push [0] 7]) 4 (.own 1))
+#guard reprStr (observe (applyTagged [4] 0 1 separatedGraph.heap [(true, .push [0] 5), (false, .push [0] 6)]) 4 (.own 0))
+        != reprStr (observe separatedGraph.heap 4 (.own 0))
 
 end EzdxfVerif.Props.C16
